@@ -39,6 +39,7 @@ import (
 	"github.com/hashicorp/consul/agent/rpcclient/health"
 	"github.com/hashicorp/consul/agent/structs"
 	"github.com/hashicorp/consul/agent/submatview"
+	"github.com/hashicorp/consul/api"
 	raftstorage "github.com/hashicorp/consul/internal/storage/raft"
 	"github.com/hashicorp/consul/proto/private/pbsubscribe"
 	"github.com/hashicorp/consul/types"
@@ -127,7 +128,7 @@ func tokNum(secret string) int {
 
 // Write is one state-store write (one Raft apply).
 type Write struct {
-	K      string `json:"k"` // svc dsvc node dnode chk dchk cfg dcfg tok dtok pol role kv
+	K      string `json:"k"` // svc dsvc node dnode chk dchk cfg dcfg tok dtok pol role kv reg txn
 	Node   string `json:"node,omitempty"`
 	SID    string `json:"sid,omitempty"`
 	Name   string `json:"name,omitempty"`
@@ -143,6 +144,9 @@ type Write struct {
 	Links  []int  `json:"links,omitempty"` // policies linked by a token / role
 	Role   bool   `json:"role,omitempty"`  // token links role 0
 	Desc   string `json:"desc,omitempty"`
+	NMeta  string `json:"nmeta,omitempty"`  // reg: node meta written by the same request
+	NCheck string `json:"ncheck,omitempty"` // reg: status of the node-level check "nc" written by the same request
+	Ops    []Write `json:"ops,omitempty"`   // txn: node / svc / chk / dsvc / dchk operations of ONE transaction
 }
 
 // Ev is an abstract event: topic, subject, instance id, value (0 = deregister / delete).
@@ -563,14 +567,53 @@ func (w *World) registerRequest(x *Write) *structs.RegisterRequest {
 	case "chk":
 		req.SkipNodeUpdate = true
 		req.Checks = structs.HealthChecks{{Node: x.Node, CheckID: types.CheckID(x.Check), Name: x.Check, Status: x.Status, ServiceID: x.SID, EnterpriseMeta: *defMeta}}
+	case "reg":
+		// one Catalog.Register request that writes the node, a node-level check, a service and a service check together
+		if x.NMeta != "" {
+			req.NodeMeta = map[string]string{"nm": x.NMeta}
+		}
+		if x.SID != "" {
+			req.Service = w.nodeService(x)
+		}
+		if x.NCheck != "" {
+			req.Checks = append(req.Checks, &structs.HealthCheck{Node: x.Node, CheckID: "nc", Name: "nc", Status: x.NCheck, EnterpriseMeta: *defMeta})
+		}
+		if x.Check != "" && x.SID != "" {
+			req.Checks = append(req.Checks, &structs.HealthCheck{Node: x.Node, CheckID: types.CheckID(x.Check), Name: x.Check, Status: x.Status, ServiceID: x.SID, EnterpriseMeta: *defMeta})
+		}
 	}
 	return req
 }
 
 func (w *World) apply(s *state.Store, idx uint64, x *Write) error {
 	switch x.K {
-	case "node", "svc", "chk":
+	case "node", "svc", "chk", "reg":
 		return s.EnsureRegistration(idx, w.registerRequest(x))
+	case "txn":
+		var ops structs.TxnOps
+		for i := range x.Ops {
+			o := &x.Ops[i]
+			switch o.K {
+			case "node":
+				n := structs.Node{Node: o.Node, Address: "10.0.0." + o.Node[1:], Datacenter: "dc1", ID: types.NodeID("11111111-2222-3333-4444-00000000000" + o.Node[1:])}
+				if o.Meta != "" {
+					n.Meta = map[string]string{"nm": o.Meta}
+				}
+				ops = append(ops, &structs.TxnOp{Node: &structs.TxnNodeOp{Verb: api.NodeSet, Node: n}})
+			case "svc":
+				ops = append(ops, &structs.TxnOp{Service: &structs.TxnServiceOp{Verb: api.ServiceSet, Node: o.Node, Service: *w.nodeService(o)}})
+			case "dsvc":
+				ops = append(ops, &structs.TxnOp{Service: &structs.TxnServiceOp{Verb: api.ServiceDelete, Node: o.Node, Service: structs.NodeService{ID: o.SID, EnterpriseMeta: *defMeta}}})
+			case "chk":
+				ops = append(ops, &structs.TxnOp{Check: &structs.TxnCheckOp{Verb: api.CheckSet, Check: structs.HealthCheck{Node: o.Node, CheckID: types.CheckID(o.Check), Name: o.Check, Status: o.Status, ServiceID: o.SID, EnterpriseMeta: *defMeta}}})
+			case "dchk":
+				ops = append(ops, &structs.TxnOp{Check: &structs.TxnCheckOp{Verb: api.CheckDelete, Check: structs.HealthCheck{Node: o.Node, CheckID: types.CheckID(o.Check), EnterpriseMeta: *defMeta}}})
+			}
+		}
+		if _, errs := s.TxnRW(idx, ops); len(errs) > 0 {
+			return errs[0]
+		}
+		return nil
 	case "dsvc":
 		return s.DeleteService(idx, x.Node, x.SID, defMeta, "")
 	case "dnode":
